@@ -59,6 +59,36 @@ func vMutate(r vh.R, b []byte, k int) []byte {
 	return out
 }
 
+// vWrapHeaderBlob crafts a deblob-format program whose declared jump-table count times entry width wraps around
+// 2^64 to a small number (so that the header is consistent with the few table bytes that follow) and whose code
+// performs a dynamic jump through the table.
+func vWrapHeaderBlob(r vh.R) []byte {
+	z := []uint64{2, 3, 4, 5, 7, 8, 16, 128, 255}[r.IntN(9)]
+	j := ^uint64(0)/z + 1 + uint64(r.IntN(4)) // ceil(2^64 / z) + k: j*z mod 2^64 is small
+	if r.IntN(4) == 0 {
+		j = 1<<32 + uint64(r.IntN(3)) // no wrap, just beyond 32 bits
+	}
+	prod := j * z
+	a := &refpvm.Asm{}
+	a.Label()
+	a.OneRegImm(51, 2, 2*uint64(1+r.IntN(6)), 4) // load_imm r2 = 2*(index+1)
+	a.OneRegImm(50, 2, 0, 1)                     // jump_ind r2 + 0
+	a.Trap()
+	out := append(refpvm.EncNat(j), byte(z))
+	out = append(out, refpvm.EncNat(uint64(len(a.Code)))...)
+	if prod <= 4096 {
+		out = append(out, r.Bytes(int(prod))...)
+	}
+	out = append(out, a.Code...)
+	mask := make([]byte, (len(a.Mask)+7)/8)
+	for i, b := range a.Mask {
+		if b {
+			mask[i/8] |= 1 << uint(i%8)
+		}
+	}
+	return append(out, mask...)
+}
+
 // vStdDeclared returns the sizes a standard-program blob declares (0 if it does not parse).
 func vStdDeclared(b []byte) uint64 {
 	if len(b) < 11 {
@@ -214,6 +244,50 @@ func TestVerifC03(t *testing.T) {
 		if i < 3 {
 			h.Sample(map[string]any{"target": tg.name, "bytes": vh.Hex(b[:min(len(b), 80)])})
 		}
+	}
+
+	// every opcode as the LAST instruction of the code with 0..10 operand bytes present (the remaining operand bytes
+	// come from the implicit zero extension), through both engines: machine+invoke (step engine) and Psi_M (block engine)
+	for op := 0; op < 256; op++ {
+		for k := 0; k <= 10; k++ {
+			i := op*11 + k
+			if !h.Mine("tail", i) {
+				continue
+			}
+			r := h.Rng("tail", i)
+			code := []byte{1, byte(op)} // fallthrough, then the opcode under test
+			mask := []bool{true, true}
+			for x := 0; x < k; x++ {
+				code = append(code, byte(r.IntN(256)))
+				mask = append(mask, false)
+			}
+			blob := refpvm.EncodeBlob(code, mask, []uint64{0}, 1)
+			for _, tg := range targets {
+				switch tg.name {
+				case "machine+invoke":
+					runOne("tail", i, tg, blob, r, "")
+				case "Psi_M":
+					runOne("tail", i, tg, refpvm.StdBlob(nil, nil, 0, 0, blob), r, "")
+				}
+			}
+			h.Distinct("tail", op, k)
+		}
+	}
+
+	// crafted headers whose size arithmetic wraps around 2^64, through every target
+	nw := h.N(1200, 24000)
+	for i := 0; i < nw; i++ {
+		if !h.Mine("wrap", i) {
+			continue
+		}
+		r := h.Rng("wrap", i)
+		tg := targets[i%len(targets)]
+		b := vWrapHeaderBlob(r)
+		if tg.std {
+			b = refpvm.StdBlob(nil, nil, 0, 0, b)
+		}
+		runOne("wrap", i, tg, b, r, "")
+		h.Distinct("wrap", tg.name, b)
 	}
 
 	// every truncation of a few valid blobs, through every target
